@@ -145,7 +145,7 @@ func (p *lsProc) initialize() string {
 	p.send(obj{"jsonrpc": "2.0", "id": 0, "method": "initialize",
 		"params": obj{"workspaceFolders": []obj{{"uri": "file:///w", "name": "w"}}}})
 	for {
-		m, st := p.recv(10 * time.Second)
+		m, st := p.recv(30 * time.Second)
 		if st != "" {
 			return st
 		}
@@ -760,11 +760,13 @@ const c23ProbeSyn = "language l(go);\n:: lexer\na: /a/\n:: parser\n%input S;\nS:
 
 type c23Mode struct{ diagUtf16, locUtf16, synFixed, emptyIgnored, nonFileOK bool }
 
-func (m c23Mode) String() string { return b2s(m.diagUtf16) + b2s(m.locUtf16) + b2s(m.synFixed) + b2s(m.emptyIgnored) }
+func (m c23Mode) String() string {
+	return b2s(m.diagUtf16) + b2s(m.locUtf16) + b2s(m.synFixed) + b2s(m.emptyIgnored)
+}
 
 // probes the known defects on the real server; reports each one that is present (stable token in the input text)
 func c23Probe(c *Ctx, bin string) (m c23Mode) {
-	to := 10 * time.Second
+	to := 30 * time.Second
 	ss := &c23Session{bin: bin}
 	defer ss.close()
 	texts := []string{c23ProbeDoc, c23ProbeSyn}
@@ -907,7 +909,7 @@ func c23Positions(c *Ctx) {
 	}
 	// contents
 	pieces := []string{"a", "b", " ", "x1", "\n", "\n", "\r\n", "é", "ж", "€", "日", "😀", "𝒳", "\xff", "\xc3", "\xe2\x82", "\xed\xa0\x80", "\xf0\x9f", "\n\n", ""}
-	n := c.N(250, 4000)
+	n := c.N(250, 8000)
 	for i := 0; i < n; i++ {
 		var sb strings.Builder
 		for k := r.Intn(12); k > 0; k-- {
@@ -989,8 +991,8 @@ func c23Histories(c *Ctx, bin string, mode c23Mode) {
 	ss := &c23Session{bin: bin}
 	defer ss.close()
 	defer func() { c.Extra["server_processes"] = ss.Spawn }()
-	n := c.N(110, 1500)
-	timeout := 8 * time.Second
+	n := c.N(110, 5000)
+	timeout := 30 * time.Second
 	byteCols := !mode.diagUtf16 || !mode.locUtf16
 	gen := &c23Gen{c: c, allowBefore: !byteCols, allowSyntax: mode.synFixed}
 	// the mirror of the crash (only while the defect is there): tie the model's `none` to the real process death
